@@ -64,6 +64,7 @@ seq_t dtw_warping_paths{{ suffix }}{{ suffix2 }}(seq_t *wps,
 
     {%- if "affinity" not in suffix %}
     if (settings->use_pruning || settings->only_ub) {
+        seq_t user_max_dist = p.max_dist;
         {%- if "euclidean" == inner_dist %}
         if (ndim == 1) {
             p.max_dist = ub_euclidean_euclidean(s1, l1, s2, l2);
@@ -87,6 +88,10 @@ seq_t dtw_warping_paths{{ suffix }}{{ suffix2 }}(seq_t *wps,
             } else {
                 return sqrt(p.max_dist);
             }
+        }
+        if (user_max_dist < p.max_dist) {
+            // A max_dist given by the user stays in force when it is the tighter bound
+            p.max_dist = user_max_dist;
         }
     }
     {%- endif %}
